@@ -392,6 +392,37 @@ def oracle_real(ck, rng):
             ck.violation(what=f"{M.__name__}.fit reported label {int(res2.label)} / wrong rotation for candidate (j={j},k={k})",
                          inp=c, key={"site": "model.fit", "T>1": T > 1, "K>1": K > 1}, oracle="fit_identifies_candidate")
 
+    # displaced copies of template j with a fractional search range and a displacement beyond its integer part: label j, shift d
+    from props.C04 import displaced, smooth_template
+    for it in range(4 if ck.tier == "quick" else 30):
+        T = int(rng.integers(2, 4))
+        M = [ZNCCAlignment, NCCAlignment, PCCAlignment][it % 3]
+        tmpls = [smooth_template(rng, (16, 16, 16)) for _ in range(T)]
+        # equal-energy templates: the un-normalised PCC score of a copy of template j is then largest for template j (Cauchy-Schwarz)
+        tmpls = [(t_ * (100.0 / float(np.linalg.norm(t_)))).astype(np.float32) for t_ in tmpls]
+        j = int(rng.integers(0, T))
+        m = float(rng.choice([2.5, 2.4, 1.6]))
+        d = np.round(rng.uniform(-1, 1, size=3) * 20) / 20
+        ax = int(rng.integers(0, 3))
+        d[ax] = float(rng.choice([-1, 1])) * (np.floor(m) + float(rng.choice([0.3, 0.35, 0.4])))
+        img = displaced(tmpls[j], d)
+        rots = None       # (blob templates are nearly symmetric: a 20-degree candidate scores within interpolation error of the true one)
+        model = M(tmpls, rotations=rots) if rots else M(tmpls)
+        res = model.align(img, (m, m, m))
+        lab = int(res.label) % T
+        err = float(np.abs(np.asarray(res.shift, float) - d).max())
+        ident = np.allclose(np.abs(res.quat), [0, 0, 0, 1], atol=1e-6)
+        ck.oracle_count("displaced_template_identified", 1, 1)
+        if lab != j or err > 0.1 + 1e-6 or not ident:
+            try:
+                cand = [round(float(l_.max()), 4) for l_ in np.asarray(model.landscape(img, (m, m, m)))]
+            except Exception:  # noqa
+                cand = None
+            ck.violation(what=f"{M.__name__}.align with {T} templates, max_shifts {m}: displaced copy of template {j} (d = {d.tolist()}) reported as template {lab}, "
+                              f"shift {np.round(res.shift, 3).tolist()}, quaternion {np.round(res.quat, 3).tolist()}, score {float(res.score):.4f}; landscape maxima per candidate {cand}",
+                         inp={"T": T, "j": j, "max_shifts": m, "d": d.tolist(), "model": M.__name__, "rotations": rots, "seed": ck.seed, "it": it},
+                         key={"site": "model.align-displaced", "model": M.__name__}, oracle="displaced_template_identified")
+
 
 def corr_rotation_set(ck, rng):
     """angles searched for a (max, step) range on one axis, decoded from the quaternions, against the model"""
